@@ -680,18 +680,32 @@ def build9(m):
     m.add(Contract('re:Heading.pattern.match', [('s', STR)], returns=TOpt(MH), trusted=True, pure=True,
                    ensures=['is_none(result) == (not heading_matches(s))',
                             'implies(not is_none(result), not is_none(h_group(some(result), 1)) and '
-                            '1 <= len(some(h_group(some(result), 1))) and len(some(h_group(some(result), 1))) <= 6)'],
+                            '1 <= len(some(h_group(some(result), 1))) and len(some(h_group(some(result), 1))) <= 6)',
+                            # groups 2 and 3 stand in the same alternative: both take part in a match or neither does
+                            'implies(not is_none(result), is_none(h_group(some(result), 2)) == is_none(h_group(some(result), 3)))'],
                    note='A5 capture contract of Heading.pattern; the width of group 1 (#{1,6}) is the lemma width:Heading.pattern.g1'))
     m.methods[('MatchH', 'group')] = 're:MatchH.group'
     m.add(Contract('re:MatchH.group', [('self', MH), ('n', INT)], returns=TOpt(STR), trusted=True, pure=True,
                    ensures=['result == h_group(self, n)']))
-    method('Heading', 'start', Contract(
+    m.methods[('MatchH', 'groups')] = 're:MatchH.groups'
+    m.add(Contract('re:MatchH.groups', [('self', MH)], returns=TTuple([TOpt(STR), TOpt(STR), TOpt(STR)]), trusted=True,
+                   pure=True,
+                   ensures=['result[0] == h_group(self, 1) and result[1] == h_group(self, 2) and result[2] == h_group(self, 3)'],
+                   note='groups() is (group(1), group(2), group(3)) (re documentation)'))
+    c = method('Heading', 'start', Contract(
         MOD + ':Heading.start', [('cls', cls_t('Heading')), ('line', STR)], returns=BOOL,
         ensures=['result == heading_matches(line)',
                  # C12 / C08: a started heading has a level between 1 and 6
-                 ('implies(result, 1 <= Heading.level and Heading.level <= 6)', ['C12', 'C08'])],
+                 ('implies(result, 1 <= Heading.level and Heading.level <= 6)', ['C12', 'C08']),
+                 # C11 / C05 / C09: every piece of scratch state the following read() uses is written by this call,
+                 # from this line only - nothing of an earlier heading survives a successful start()
+                 ('implies(result, Heading.level == len(some(h_group(some(g_m), 1))))', ['C11', 'C05', 'C09']),
+                 ("implies(result, Heading.closing_sequence == (some(h_group(some(g_m), 3)).strip() "
+                  "if not is_none(h_group(some(g_m), 3)) else ''))", ['C11', 'C05', 'C09'])],
         modifies=['G:Heading.level', 'G:Heading.content', 'G:Heading.closing_sequence'],
         prop=['C01', 'C12', 'C11']), classmethod_=True)
+    c.ghost_init = {'g_m': (TOpt(MH), 'None')}
+    c.ghost_after = {'match_obj = cls.pattern.match(line)': [('g_m', 'match_obj')]}
 
 
 def build10(m):
